@@ -15,7 +15,7 @@ Core Lean only (no Mathlib / Batteries): the driver `Drivers.C19` links this mod
 -/
 namespace ProbLogModel.Findall
 
-/-- Result terms are opaque for the world-splitting. -/
+/-- Result terms are uninterpreted by the world-splitting. -/
 abbrev Term := String
 
 /-- A node key of a `LogicFormula`: `TRUE` (= the Python int `0`), `FALSE` (= `None`) or a signed node id.
